@@ -317,6 +317,17 @@ closures, its builtins first-order, no stack mark in it -/
 def VOk (m : Nat → Nat) (s : St) (rs : Ref.St) (v : Val) : Prop :=
   ValIn (GoodFn m s rs) (· ∈ foBuiltins) (fun _ => False) v
 
+/-- a value bound to the name `x`: in order if `x` is a name the fragment may mention; the global
+bindings of the other builtins (`map`, `apply`, …) are only required to mention good functions -/
+def VOkN (m : Nat → Nat) (s : St) (rs : Ref.St) (x : String) (v : Val) : Prop :=
+  ValIn (GoodFn m s rs) (fun n => okSym x = true → n ∈ foBuiltins) (fun _ => okSym x = false) v
+
+theorem VOkN.ok {m s rs x v} (h : VOkN m s rs x v) (hx : okSym x = true) : VOk m s rs v :=
+  ValIn.imp h (fun _ hg => hg) (fun _ hn => hn hx) (fun _ hl => by rw [hx] at hl; cases hl)
+
+theorem VOk.named {m s rs v} (h : VOk m s rs v) (x : String) : VOkN m s rs x v :=
+  ValIn.imp h (fun _ hg => hg) (fun _ hn _ => hn) (fun _ hl => hl.elim)
+
 def HOk (m : Nat → Nat) (s : St) (rs : Ref.St) (h : DataHeap) : Prop :=
   HeapIn (GoodFn m s rs) (· ∈ foBuiltins) (fun _ => False) h
 
@@ -331,7 +342,7 @@ structure RelF (m : Nat → Nat) (s : St) (rs : Ref.St) (env : Nat) : Prop where
   heap : rs.heap = trHeap m id id s.heap
   trace : s.trace = rs.trace
   globals : Globals rs
-  vok : ∀ i x v, okSym x = true → (scopeOf s i).vars.lookup x = some v → VOk m s rs v
+  vok : ∀ i x v, (scopeOf s i).vars.lookup x = some v → VOkN m s rs x v
   hok : HOk m s rs s.heap
 
 /-- **Lookup**: under `RelF`, the three stages of `LexicalLookupSymbol` find what the reference
@@ -514,7 +525,7 @@ theorem RelF.of_same {m : Nat → Nat} {s s' : St} {rs rs' : Ref.St} {env : Nat}
     ⟨fr0, by rw [hfr]; exact hf0, hp0, by rw [hfl]; exact hfl0⟩, ⟨b, by rw [hfl, hfr, hlin]; exact hc, ?_⟩,
     fun i hi => by rw [hfl] at hi; obtain ⟨t, h1, h2⟩ := h.fscopes i hi; exact ⟨t, by rw [hso]; exact h1, by rw [hfo]; exact h2⟩,
     hheap, htr, fun hh hm => by rw [hfr]; exact h.globals hh hm,
-    fun i x v hx hv => ValIn.mono (h.vok i x v hx (by rw [← hso]; exact hv)) hgood, HeapIn.mono hok hgood⟩
+    fun i x v hv => ValIn.mono (h.vok i x v (by rw [← hso]; exact hv)) hgood, HeapIn.mono hok hgood⟩
   rw [hcur]
   exact hfc.transfer (by unfold topSeg; rw [hfl, hlin]) (by rw [hfns]; exact Nat.le_refl _) (fun i _ => hfo i)
 
@@ -587,15 +598,15 @@ theorem RelF.bind {m s rs env} (h : RelF m s rs env) (id : Nat) (hid : id < rs.f
     split
     · rename_i hh; rw [← hh.1]; exact h1
     · exact h1
-  · intro i y w hy hw
+  · intro i y w hw
     rw [scopeOf_bind] at hw
     split at hw
     · rename_i hh
       simp only [lookup_assocSet] at hw
       split at hw
-      · injection hw with hw; subst hw; exact ValIn.mono hv hgood
-      · exact ValIn.mono (h.vok id y w hy hw) hgood
-    · exact ValIn.mono (h.vok i y w hy hw) hgood
+      · injection hw with hw; subst hw; exact ValIn.mono (hv.named y) hgood
+      · exact ValIn.mono (h.vok id y w hw) hgood
+    · exact ValIn.mono (h.vok i y w hw) hgood
 
 /-! ## Helper functions of operand evaluation; coming back to a caller -/
 
@@ -651,7 +662,7 @@ theorem relF_inHelper {m : Nat → Nat} {s : St} {rs : Ref.St} {env : Nat} (h : 
       (by show s.fns.length ≤ (s.fns ++ [_]).length; simp)
       (fun id hid => fnOf_inHelper_old s code id hid)
   refine ⟨h.len, h.vars, h.root0, ⟨b, hc, ?_⟩, ?_, h.heap, h.trace, h.globals,
-    fun i x v hx hv => ValIn.mono (h.vok i x v hx hv) hgood, HeapIn.mono h.hok hgood⟩
+    fun i x v hv => ValIn.mono (h.vok i x v hv) hgood, HeapIn.mono h.hok hgood⟩
   · refine FnChainF.step b _ s.curfunc (by show s.fns.length < (s.fns ++ [_]).length; simp) ?_ hfc.lt ?_ hold
     · rw [fnOf_inHelper_self]; rfl
     · rw [fnOf_inHelper_self]
@@ -693,7 +704,7 @@ theorem RelF.back {m m₄ : Nat → Nat} {s s₄ s₅ : St} {rs rs₄ : Ref.St} 
     ⟨fr0, hf0, hp0, by rw [hfl5]; exact hfl0⟩, ⟨b, by rw [hlin]; exact hc5, ?_⟩,
     fun i hi => by rw [hfl5] at hi; obtain ⟨t, h1, h2⟩ := rel4.fscopes i hi; exact ⟨t, by rw [hso]; exact h1, by rw [hfo5]; exact h2⟩,
     by rw [hheap]; exact rel4.heap, by rw [htr]; exact rel4.trace, rel4.globals,
-    fun i x v hx hv => ValIn.mono (rel4.vok i x v hx (by rw [← hso]; exact hv)) hgood,
+    fun i x v hv => ValIn.mono (rel4.vok i x v (by rw [← hso]; exact hv)) hgood,
     by rw [hheap]; exact HeapIn.mono rel4.hok hgood⟩
   rw [hcur]
   exact hfc.transfer hts (by rw [hfns]; exact hfl) (fun id hid => by rw [hfo5]; exact hfo id hid)
@@ -826,7 +837,7 @@ theorem RelF.enter {m : Nat → Nat} {s₁ : St} {rs₁ : Ref.St} {env vid : Nat
     (hclos : rsB.clos = rs₁.clos) (hrheap : rsB.heap = rs₁.heap) (hrtr : rsB.trace = rs₁.trace)
     (ht : (fnOf s₁ t).closing = [some 0])
     (hL : ∀ y, Lref.lookup y = (Lvm.lookup y).map (trf m))
-    (hLok : ∀ y v, okSym y = true → Lvm.lookup y = some v → VOk m s₁ rs₁ v)
+    (hLok : ∀ y v, Lvm.lookup y = some v → VOk m s₁ rs₁ v)
     (hLfo : ∀ h ∈ foBuiltins, Lref.lookup h = none) : RelF m sB rsB rs₁.frames.length := by
   have hlen := h.len
   obtain ⟨b, hc, hfc⟩ := h.ctx
@@ -890,10 +901,10 @@ theorem RelF.enter {m : Nat → Nat} {s₁ : St} {rs₁ : Ref.St} {env vid : Nat
     · subst heq; rw [hfrget_new]; exact hLfo name hn
     · rw [hfrget_big i hgt]; rfl
   · -- values in order
-    intro i x v hx hv
+    intro i x v hv
     rcases Nat.lt_trichotomy i s₁.scopes.length with hlt | heq | hgt
-    · rw [hso_old i hlt] at hv; exact ValIn.mono (h.vok i x v hx hv) hgood
-    · subst heq; rw [hso_new] at hv; exact ValIn.mono (hLok x v hx hv) hgood
+    · rw [hso_old i hlt] at hv; exact ValIn.mono (h.vok i x v hv) hgood
+    · subst heq; rw [hso_new] at hv; exact ValIn.mono ((hLok x v hv).named x) hgood
     · rw [hso_big i hgt] at hv; cases hv
 
 /-! ## `CallExprInstr` with a symbol callee, `CallResolved` -/
